@@ -1,0 +1,99 @@
+//! Verification hooks (cargo feature `verif_hooks`, off by default).
+//!
+//! Add-only instrumentation used by the machinery in `/verif`: thread-local
+//! counters, an optional event sink, and a read-only view of the scheduling
+//! structures of a built [`FnGraph`]. Nothing here changes behaviour.
+
+use std::cell::{Cell, RefCell};
+
+use crate::{Edge, FnGraph};
+
+thread_local! {
+    static RANK_POPS: Cell<u64> = const { Cell::new(0) };
+    static PATH_CHECKS: Cell<u64> = const { Cell::new(0) };
+    static SINK: RefCell<Option<Box<dyn FnMut(HookEvent)>>> = const { RefCell::new(None) };
+}
+
+/// Events reported to the sink installed with [`set_sink`].
+#[derive(Clone, Copy, Debug, PartialEq, Eq)]
+pub enum HookEvent {
+    /// A function id left the ready stream and was recorded as processed /
+    /// wrapped in a `FnRef`.
+    Handout(usize),
+}
+
+/// Called once per `pop_front` in `RankCalc::calc`.
+pub(crate) fn rank_pop() {
+    RANK_POPS.with(|c| c.set(c.get() + 1));
+}
+
+/// Called once per `has_path_connecting` in `DataEdgeAugmenter::augment`.
+pub(crate) fn path_check() {
+    PATH_CHECKS.with(|c| c.set(c.get() + 1));
+}
+
+/// Returns and resets the number of queue pops of `RankCalc::calc` on this thread.
+pub fn take_rank_pops() -> u64 {
+    RANK_POPS.with(|c| c.replace(0))
+}
+
+/// Returns and resets the number of path checks of `augment` on this thread.
+pub fn take_path_checks() -> u64 {
+    PATH_CHECKS.with(|c| c.replace(0))
+}
+
+/// Installs (or removes) the event sink of this thread.
+pub fn set_sink(sink: Option<Box<dyn FnMut(HookEvent)>>) {
+    SINK.with(|s| *s.borrow_mut() = sink);
+}
+
+pub(crate) fn emit(event: HookEvent) {
+    SINK.with(|s| {
+        if let Ok(mut sink) = s.try_borrow_mut() {
+            if let Some(sink) = sink.as_mut() {
+                sink(event);
+            }
+        }
+    });
+}
+
+/// Read-only copy of what the run-time scheduler walks.
+#[derive(Clone, Debug, PartialEq, Eq)]
+pub struct SchedView {
+    /// `edge_counts.incoming()`.
+    pub incoming: Vec<usize>,
+    /// `edge_counts.outgoing()`.
+    pub outgoing: Vec<usize>,
+    /// Edges of `graph_structure` in index order.
+    pub structure: Vec<(usize, usize, Edge)>,
+    /// Edges of `graph_structure_rev` in index order.
+    pub structure_rev: Vec<(usize, usize, Edge)>,
+    /// Node counts of the two structures.
+    pub node_counts: (usize, usize),
+}
+
+/// Returns a copy of the scheduling structures of `fn_graph`.
+pub fn sched_view<F>(fn_graph: &FnGraph<F>) -> SchedView {
+    let edges = |dag: &daggy::Dag<(), Edge, crate::FnIdInner>| {
+        dag.raw_edges()
+            .iter()
+            .map(|e| (e.source().index(), e.target().index(), e.weight))
+            .collect::<Vec<_>>()
+    };
+    SchedView {
+        #[cfg(feature = "async")]
+        incoming: fn_graph.edge_counts.incoming().to_vec(),
+        #[cfg(not(feature = "async"))]
+        incoming: Vec::new(),
+        #[cfg(feature = "async")]
+        outgoing: fn_graph.edge_counts.outgoing().to_vec(),
+        #[cfg(not(feature = "async"))]
+        outgoing: Vec::new(),
+        structure: edges(&fn_graph.graph_structure),
+        structure_rev: edges(&fn_graph.graph_structure_rev),
+        node_counts: (
+            fn_graph.graph_structure.node_count(),
+            fn_graph.graph_structure_rev.node_count(),
+        ),
+    }
+}
